@@ -262,6 +262,73 @@ Example c05_roundtrip_example :
   match_path (fun s => s) p ["api"; "42"; "items"; "a b"]%string = Some [("id", "42"); ("name", "a b")]%string.
 Proof. vm_compute. split; reflexivity. Qed.
 
+(* FROM-STRING numbers (form/path/header values, `,string`, default=, string/number elements of slices and maps all go
+   through convertType = convert_set): the accepted integer syntax is exactly strconv.ParseInt's / ParseUint's --
+   an optional single sign (ParseInt only) followed by one or more decimal digits: no blanks, no 0x, no '.', no
+   exponent; leading zeros are allowed ("007" is 7).  Everything accepted denotes that integer (parse_signed) and must
+   fit int64 and the field's width (c05_exact_scalars / c05_exact): nothing is wrapped or truncated. *)
+Theorem c05_int_string_syntax :
+  (forall s, (exists z, parse_signed s = Some z) <-> int_syntax s = true) /\
+  (forall s z, parse_int64 s = Some z -> parse_signed s = Some z /\ fits_int W64 z = true) /\
+  (forall s z, parse_uint64 s = Some z -> parse_signed s = Some z /\ digits_syntax s = true) /\
+  (forall w s v, convert_set (KInt w) s None = Ok v -> exists z, v = VInt z /\ parse_signed s = Some z /\ fits_int w z = true) /\
+  (forall w s v, convert_set (KUint w) s None = Ok v -> exists z, v = VInt z /\ parse_signed s = Some z /\ fits_uint w z = true).
+Proof.
+  split; [exact parse_signed_syntax|]. split; [exact parse_int64_signed|]. split.
+  - intros s z H. split; [apply parse_uint64_signed; exact H|]. apply parse_udec_syntax. unfold parse_uint64 in H.
+    destruct (parse_udec s); [eauto | discriminate].
+  - split; intros w s v H; unfold convert_set in H.
+    + destruct (parse_int64 s) eqn:E; [|discriminate]. destruct (fits_int w z) eqn:F; inversion H; subst.
+      apply parse_int64_signed in E as [E _]. eauto.
+    + destruct (parse_uint64 s) eqn:E; [|discriminate]. destruct (fits_uint w z) eqn:F; inversion H; subst.
+      apply parse_uint64_signed in E. eauto.
+Qed.
+Print Assumptions c05_int_string_syntax.
+
+Example c05_int_string_examples :
+  map (fun s => convert_set (KInt W64) s None)
+      ["9223372036854775807"; "9223372036854775808"; "18446744073709551616"; "1e19"; "-1e30"; "9007199254740993.0";
+       "1.0"; "1e3"; " 7"; "+7"; "0x10"; "007"; "-9223372036854775808"]%string
+  = [Ok (VInt 9223372036854775807); Err E_parse; Err E_parse; Err E_parse; Err E_parse; Err E_parse;
+     Err E_parse; Err E_parse; Err E_parse; Ok (VInt 7); Err E_parse; Ok (VInt 7); Ok (VInt (-9223372036854775808))] /\
+  map (fun s => convert_set (KUint W64) s None) ["18446744073709551615"; "18446744073709551616"; "+7"; "007"; "-0"]%string
+  = [Ok (VInt 18446744073709551615); Err E_parse; Err E_parse; Ok (VInt 7); Err E_parse] /\
+  map (fun s => convert_set (KInt W8) s None) ["127"; "128"; "+0128"; "-128"; "-129"]%string
+  = [Ok (VInt 127); Err E_overflow; Err E_overflow; Ok (VInt (-128)); Err E_overflow].
+Proof. vm_compute. repeat split. Qed.
+
+(* ROUND TRIP and zero values: every member except a form-tagged STRING carries its zero value explicitly on the wire
+   ("0", "false", an empty header value, 0 / false / "" / [] in the JSON body), so it comes back as sent whatever its
+   default=.  A form-tagged string set to "" is dropped by GetFormValues and comes back as the default (or fails when
+   required): it round-trips iff it is non-empty, or its default is "" / it is optional without default. *)
+Theorem c05_roundtrip_form_zero : forall optional dflt sent,
+  form_string_back optional dflt sent = Some sent <->
+  (sent <> EmptyString \/ dflt = Some EmptyString \/ (dflt = None /\ optional = true)).
+Proof. exact form_string_back_spec. Qed.
+Print Assumptions c05_roundtrip_form_zero.
+
+(* Marshal: every member lands in the part named by its tag ("" when untagged) under its key; its value is the
+   member's value, or fmt.Sprint of it when `string`-tagged *)
+Theorem c05_marshal_entry : forall fs vs rows, marshal fs vs = Ok rows ->
+  Forall2 (fun tfv row =>
+    let '(tg, f, v) := tfv in let '(p, k, w) := row in
+    k = f_key f /\ p = match tg with Some t => t | None => EmptyString end /\
+    ((tg = None \/ o_string (f_opts f) = false) -> w = v) /\
+    (tg <> None -> o_string (f_opts f) = true -> exists s, sprint v = Some s /\ w = VStr s)) (combine fs vs) rows.
+Proof.
+  intros fs vs rows H. apply marshal_rows in H. eapply Forall2_impl; [|exact H].
+  intros [[tg f] v] [[p k] w] Hr. simpl in Hr. apply marshal_field_entry. exact Hr.
+Qed.
+Print Assumptions c05_marshal_entry.
+
+(* floats stay opaque; the JSON/YAML clause on them is Spec.json_yaml_float_agree on oracle bit patterns.  On the
+   witness found (token 1.0000000596046447753906250000001 into float32: both routes 0x3FF0000000000000 = 1.0,
+   strconv.ParseFloat(.,32) = 1+2^-23) the routes agree with each other but not with a single rounding *)
+Example c05_float32_double_rounding_witness :
+  json_yaml_float_agree (Some 4607182418800017408%N) (Some 4607182418800017408%N) (Some 4607182419336888320%N) = false /\
+  json_yaml_float_agree (Some 4607182419068452864%N) (Some 4607182419068452864%N) (Some 4607182419068452864%N) = true.
+Proof. vm_compute. split; reflexivity. Qed.
+
 (* ---------------- non-vacuity *)
 Example c05_keys_example :
   to_camel_case "user_name" = "userName"%string /\ to_camel_case "UserName" = "userName"%string /\
